@@ -227,7 +227,13 @@ def handler (fn : String) : Option Handler :=
           | _ => scaleOracle k o)
         | none => "skip bad-args" }
   | "polyhedron" => some {
-      model := fun _ => some "-"
+      -- args: the cloud, then (observed from the real code) the hull mesh `from_convex_hull` hands to `from_convex_mesh`
+      model := fun a => run (do
+        let _ ← plist pv3
+        let rest ← get
+        if rest.isEmpty then pure "none" else do
+          let hv ← plist pv3; let tris ← ptris
+          pure (polyModel hv tris)) a
       oracle := fun a o => match run (plist pv3) a with
         | some input => (match o with
           | "panic" :: _ => "fail panic"
@@ -237,7 +243,7 @@ def handler (fn : String) : Option Handler :=
             | none => "fail unparsable-output")
         | none => "skip bad-args" }
   | "polymesh" => some {
-      model := fun _ => some "-"
+      model := fun a => run (do let pts ← plist pv3; let tris ← ptris; pure (polyModel pts tris)) a
       oracle := fun a o => match run (do let pts ← plist pv3; let tris ← plist (do let a ← pnat; let b ← pnat; let c ← pnat; pure (a, b, c)); pure (pts, tris)) a with
         | some (pts, tris) =>
           let valid := closedManifold pts.length tris
